@@ -82,7 +82,7 @@ def gen_cases(rng, ctx):
         for args in [[0.2, 1.0], [0.0, 0.0], [0.5, 0.5], [0.0, 0.3]]:
             for seed in range(ctx.pick(3, 30)):
                 cases.append({"F": F, "call": "frame_dropout_uniform", "args": args, "seed": seed})
-        for args in [[0.5, 0.1], [0.0, 0.0], [0.2, 0.0], [0.9, 0.3]]:
+        for args in [[0.5, 0.1], [0.0, 0.0], [0.2, 0.0], [0.9, 0.3], [0.02, 0.03], [0.0, 0.05], [-0.3, 0.05]]:      # means near / below 0: the drawn fraction is folded back with abs()
             for seed in range(ctx.pick(3, 30)):
                 cases.append({"F": F, "call": "frame_dropout_normal", "args": args, "seed": seed})
     return cases
@@ -137,6 +137,13 @@ def run(ctx):
                     meta.append((info, idx, None))
             elif c["call"] == "frame_dropout_uniform" and c["args"] == [0.0, 0.0] and len(idx) != F:
                 ctx.violation("a dropout fraction of 0 drops frames", info, {"kept": len(idx)}, True, size=F, signature=sig)
+            elif c["call"] in ("frame_dropout_uniform", "frame_dropout_normal") and be != "tf":
+                # the fraction the wrapper draws is replayed from the same numpy seed: uniform(lo, hi) resp. |normal(mean, std)|
+                np.random.seed(c["seed"])
+                frac = float(np.random.uniform(low=c["args"][0], high=c["args"][1], size=1)[0]) if c["call"] == "frame_dropout_uniform" else float(np.abs(np.random.normal(loc=c["args"][0], scale=c["args"][1], size=1))[0])
+                dropped = F - len(idx)
+                if frac <= 0.99 and not (abs(dropped - F * frac) < 1 + 1e-9):
+                    ctx.violation("dropout does not drop about the drawn fraction", info, {"dropped": dropped, "fraction": frac, "expected_about": F * frac}, True, size=F, signature=sig)
     outs = ctx.driver.run(reqs)
     for (info, idx, dropped), mo in zip(meta, outs):
         if mo["kept"] != idx:
